@@ -13,7 +13,7 @@ SPEC = dict(
     trusted=["net/url.Parse, url.Values, net.SplitHostPort, time.ParseDuration, strings.TrimSpace: the model takes their results as input "
              "(passed by the observer for the strings at hand); theorems hold for every behaviour of these functions",
              "strconv.Atoi, strconv.ParseBool, net.JoinHostPort, strings.Split are modelled concretely and exercised by the tie"],
-    assumptions=["input of the model is the URL as parsed by net/url (scheme, userinfo, host, path, query multimap)"],
+    assumptions=["input of the model is the URL as parsed by net/url (scheme, userinfo, host, hostname, path, query multimap)"],
 )
 
 MANIFEST = dict(
@@ -24,8 +24,10 @@ MANIFEST = dict(
          "protocol, client_cache, client_name, max_retries, master_set, skip_verify), each depending only on its own part of the URL "
          "(non-interference theorem). The model is tied to url.go on every run (real ParseURL on generated URL texts vs the model on the "
          "structure net/url produced), plus a direct oracle built from the generator's components.",
-    note="Open findings (characterised, not repaired): an addr entry without a port loses its host; the default host of host-less entries "
-         "is u.Host verbatim (C44_addr_rule_refuted / _characterised, known_findings.d/acc.json). The defect found (write_timeout was stored into Dialer.Timeout, overwriting dial_timeout; ConnWriteTimeout never set) is repaired "
+    note="Second repair (fix commit in known_findings.d/acc.json): the default host of host-less addresses was u.Host verbatim "
+         "(redis://h1:7000?addr=:7001 gave [h1:7000]:7001), now u.Hostname(); C44_addr_rule is the full documented rule, "
+         "C44_addr_rule_before_fix_refuted the old behaviour. addr entries without a port are undocumented (addr=<host>:<port>) and outside "
+         "the statement: the oracle requires nothing of them, the model still pins what the code does. The defect found (write_timeout was stored into Dialer.Timeout, overwriting dial_timeout; ConnWriteTimeout never set) is repaired "
          "in the repository (fix: commit in known_findings.d/acc.json); theorems are about the repaired code. Code behaviours kept as they are "
          "and stated in the theorems: a path of just \"/\" is rejected (empty database number); skip_verify is not validated on non-TLS "
          "schemes; protocol / client_cache / max_retries are equality tests with no invalid value; an addr value without host takes the "
